@@ -29,7 +29,9 @@ impl Filter for AbsFilter {
             .ok_or_else(|| invalid_input("Number expected"))?;
         input
             .to_integer()
-            .map(|i| Value::scalar(i.abs()))
+            // `i64::MIN` has no integer absolute value: continue in floating point
+            .and_then(|i| i.checked_abs())
+            .map(Value::scalar)
             .or_else(|| input.to_float().map(|i| Value::scalar(i.abs())))
             .ok_or_else(|| invalid_input("Number expected"))
     }
@@ -170,7 +172,9 @@ impl Filter for PlusFilter {
 
         let result = input
             .to_integer()
-            .and_then(|i| operand.to_integer().map(|o| Value::scalar(i + o)))
+            // on integer overflow, continue in floating point
+            .and_then(|i| operand.to_integer().and_then(|o| i.checked_add(o)))
+            .map(Value::scalar)
             .or_else(|| {
                 input
                     .to_float()
@@ -219,7 +223,9 @@ impl Filter for MinusFilter {
 
         let result = input
             .to_integer()
-            .and_then(|i| operand.to_integer().map(|o| Value::scalar(i - o)))
+            // on integer overflow, continue in floating point
+            .and_then(|i| operand.to_integer().and_then(|o| i.checked_sub(o)))
+            .map(Value::scalar)
             .or_else(|| {
                 input
                     .to_float()
@@ -268,7 +274,9 @@ impl Filter for TimesFilter {
 
         let result = input
             .to_integer()
-            .and_then(|i| operand.to_integer().map(|o| Value::scalar(i * o)))
+            // on integer overflow, continue in floating point
+            .and_then(|i| operand.to_integer().and_then(|o| i.checked_mul(o)))
+            .map(Value::scalar)
             .or_else(|| {
                 input
                     .to_float()
@@ -327,7 +335,9 @@ impl Filter for DividedByFilter {
 
         let result = input
             .to_integer()
-            .and_then(|i| operand.to_integer().map(|o| Value::scalar(i / o)))
+            // `i64::MIN / -1` overflows: continue in floating point
+            .and_then(|i| operand.to_integer().and_then(|o| i.checked_div(o)))
+            .map(Value::scalar)
             .or_else(|| {
                 input
                     .to_float()
@@ -386,7 +396,8 @@ impl Filter for ModuloFilter {
 
         let result = input
             .to_integer()
-            .and_then(|i| operand.to_integer().map(|o| Value::scalar(i % o)))
+            // `i64::MIN % -1` overflows in hardware although the remainder is 0
+            .and_then(|i| operand.to_integer().map(|o| Value::scalar(i.wrapping_rem(o))))
             .or_else(|| {
                 input
                     .to_float()
